@@ -11,8 +11,10 @@ pub type HashMap<K, V> = std::collections::HashMap<K, V, FixedState>;
 /// `std::collections::HashSet` subset with a modification counter. Mutating the set while an
 /// iterator of it is alive is undefined behaviour for the real type; here the iterator stops and the
 /// event is counted as `cause.hashset.modified-during-iteration`.
+/// Items are kept in insertion order, so iteration does not depend on the hashed values (thread
+/// handles and other addresses differ between processes).
 pub struct HashSet<K> {
-    inner: std::collections::HashSet<K, FixedState>,
+    inner: Vec<K>,
     mods: Cell<u64>,
 }
 
@@ -22,7 +24,7 @@ unsafe impl<K: Sync> Sync for HashSet<K> {}
 impl<K> Default for HashSet<K> {
     fn default() -> Self {
         HashSet {
-            inner: std::collections::HashSet::default(),
+            inner: Vec::new(),
             mods: Cell::new(0),
         }
     }
@@ -30,7 +32,7 @@ impl<K> Default for HashSet<K> {
 
 impl<K: std::fmt::Debug> std::fmt::Debug for HashSet<K> {
     fn fmt(&self, f: &mut std::fmt::Formatter<'_>) -> std::fmt::Result {
-        self.inner.fmt(f)
+        f.debug_set().entries(self.inner.iter()).finish()
     }
 }
 
@@ -41,7 +43,11 @@ impl<K: Eq + Hash> HashSet<K> {
     pub fn insert(&mut self, k: K) -> bool {
         crate::sim::point("hashset.insert");
         self.mods.set(self.mods.get() + 1);
-        self.inner.insert(k)
+        if self.inner.contains(&k) {
+            return false;
+        }
+        self.inner.push(k);
+        true
     }
     pub fn remove<Q>(&mut self, k: &Q) -> bool
     where
@@ -50,7 +56,13 @@ impl<K: Eq + Hash> HashSet<K> {
     {
         crate::sim::point("hashset.remove");
         self.mods.set(self.mods.get() + 1);
-        self.inner.remove(k)
+        match self.inner.iter().position(|x| x.borrow() == k) {
+            Some(i) => {
+                _ = self.inner.remove(i);
+                true
+            }
+            None => false,
+        }
     }
     pub fn contains<Q>(&self, k: &Q) -> bool
     where
@@ -58,7 +70,7 @@ impl<K: Eq + Hash> HashSet<K> {
         Q: Hash + Eq + ?Sized,
     {
         crate::sim::point("hashset.contains");
-        self.inner.contains(k)
+        self.inner.iter().any(|x| x.borrow() == k)
     }
     pub fn len(&self) -> usize {
         self.inner.len()
